@@ -11,7 +11,11 @@ import (
 func main() {
 	i := 45
 	fmt.Sscan(os.Args[1], &i)
-	s := kernel.Mix(1, "C15-program", i)
+	seed := uint64(1)
+	if len(os.Args) > 3 {
+		fmt.Sscan(os.Args[3], &seed)
+	}
+	s := kernel.Mix(seed, "C15-program", i)
 	name := fmt.Sprintf("r%d", i)
 	p := synth.Generate(kernel.NewRand(s), name, synth.Profile{RandSafe: true, MinSub: 0, MaxSub: 3, MaxDecls: 10, OneFile: true, Module: "example.com/vs/" + name})
 	synth.WriteTo(p, os.Args[2])
